@@ -1079,6 +1079,15 @@ fn search_c10(r: &mut Rng, iters: usize) -> bool {
             witness("distinfo_roundtrip", &[("hextext", hex(&text))], &hex(&text), &hex(&back));
             return false;
         }
+        // each entry written on its own (Entry::as_bytes) is that entry's block of the file: its checksum lines in order, then its size line
+        let per_entry: Vec<u8> = parsed.distfiles().iter().chain(parsed.patchfiles().iter()).flat_map(|e| e.as_bytes()).collect();
+        let mut body = DInfo { rcsid: None, dist: d.dist.clone(), patch: d.patch.clone() };
+        body.rcsid = None;
+        let want_body = distinfo_print(&body)[b"$NetBSD$\n\n".len()..].to_vec();
+        if per_entry != want_body {
+            witness("distinfo_entries_written", &[("hextext", hex(&text))], &hex(&want_body), &hex(&per_entry));
+            return false;
+        }
         // API-assembled -> write -> parse
         let mut api = Distinfo::new();
         if let Some(rc) = &d.rcsid { api.set_rcsid(&OsString::from_vec(rc.clone())); }
@@ -1333,6 +1342,7 @@ fn run_witness(args: &[String]) -> i32 {
             format!("{:?}", stream_run(&chunks))
         }
         "distinfo_parse" | "distinfo_api_roundtrip" => format!("{:?}", real_dinfo(&Distinfo::from_bytes(&unhexb(&g("hextext"))))),
+        "distinfo_entries_written" => { let p = Distinfo::from_bytes(&unhexb(&g("hextext"))); hex(&p.distfiles().iter().chain(p.patchfiles().iter()).flat_map(|e| e.as_bytes()).collect::<Vec<u8>>()) }
         "distinfo_lookup" => lookup_report(&Distinfo::from_bytes(&unhexb(&g("hextext")))),
         "distinfo_roundtrip" => hex(&Distinfo::from_bytes(&unhexb(&g("hextext"))).as_bytes()),
         "plist_entry" => format!("{:?}", PlistEntry::from_bytes(&unhexb(&g("hexline"))).ok()),
